@@ -134,15 +134,18 @@ func (vc *VC) heapLoad(st *State, t types.Type, p Term) Term {
 	return Sel(Sel(h, PArr(p), RowSort(es)), PIdx(p), es)
 }
 
-// elemLoad reads s[i] through the uninterpreted accessor elem.<heap>, whose
-// defining axiom has the accessor itself as trigger. Quantified invariants
-// over slice elements then match without arithmetic inside patterns.
+// elemLoad reads s[i] through the uninterpreted accessor elem.<heap> applied
+// to the slice's row (its backing array as a value). The defining axiom has
+// the accessor itself as trigger, so quantified facts over slice elements
+// match without arithmetic in patterns, and facts survive heap changes that
+// leave the row alone.
 func (vc *VC) elemLoad(st *State, t types.Type, s, i Term) Term {
-	name, h, es := vc.typedHeap(st, t)
+	name := vc.ss.HeapName(t)
+	es := vc.specialSort(t)
 	fn := "elem." + name
-	vc.Uninterp(fn, []Sort{HeapSort(es), SSlice, SInt}, es,
-		fmt.Sprintf("(forall ((h %s) (s Slice) (i Int)) (! (= (%s h s i) (select (select h (sarr s)) (+ (soff s) i))) :pattern ((%s h s i))))", HeapSort(es), fn, fn))
-	return App(es, fn, h, s, i)
+	vc.Uninterp(fn, []Sort{RowSort(es), SSlice, SInt}, es,
+		fmt.Sprintf("(forall ((r %s) (s Slice) (i Int)) (! (= (%s r s i) (select r (+ (soff s) i))) :pattern ((%s r s i))))", RowSort(es), fn, fn))
+	return App(es, fn, vc.rowFor(st, t, s), s, i)
 }
 
 func (vc *VC) heapStore(st *State, t types.Type, p Term, v Term) {
@@ -802,7 +805,11 @@ func (fr *Frame) execSlice(x *ssa.Slice, st *State) *State {
 		ok := And(Le(IntLit(0), lo), Le(lo, hi), Le(hi, mx), Le(mx, SCap(s)))
 		vc.Safe("slice", x.Pos(), st, ok, "slice bounds out of range")
 		st.Assume(ok)
-		fr.vals[x] = TV(vc.Define("slc", MkSlice(SArr(s), Add(SOff(s), lo), Sub(hi, lo), Sub(mx, lo))))
+		ns := vc.Define("slc", MkSlice(SArr(s), Add(SOff(s), lo), Sub(hi, lo), Sub(mx, lo)))
+		if r, ok := vc.rowOf[s.S]; ok {
+			vc.rowOf[ns.S] = r
+		}
+		fr.vals[x] = TV(ns)
 		return st
 	case *types.Pointer:
 		arr := u.Elem().Underlying().(*types.Array)
